@@ -21,7 +21,19 @@ def c06_worker(args, scratch):
             res["violations"].append(["kernel-verifier-or-attach-rejected-connect4-program", {"error": k.attach["err"]}])
             return res
         cnt["kernel_verifier_accepted_connect4"] = 1
-        cnt["kprobe_attach"] = "ok" if "err" not in k.kprobe else "unavailable in this kernel: " + k.kprobe["err"][:120]
+        # second program (kprobe/tcp_connect): attach_kprobe_program() loads it (kernel verifier) and then attaches it. The
+        # kernel here has no kprobe support, so a failure of the ATTACH step is expected; a failure of the LOAD step means
+        # the verifier rejected the program.
+        kerr = k.kprobe.get("err")
+        if kerr is None:
+            cnt["kernel_verifier_accepted_kprobe"] = 1; cnt["kprobe_attached"] = 1
+        elif "Failed to attach program" in kerr:
+            cnt["kernel_verifier_accepted_kprobe"] = 1; cnt["kprobe_attach_unavailable_in_this_kernel"] = 1
+        elif "Failed to load program" in kerr:
+            res["violations"].append(["kernel-verifier-rejected-kprobe-program", {"error": kerr[:2000]}])
+        else:
+            cnt["kprobe_program_other_error"] = 1
+            res.setdefault("notes", []).append(kerr[:300])
         if k.startup["errors"]:
             res["violations"].append(["startup-map-update-failed", k.startup])
         # policy keys the Rust side wrote at start-up must be the keys the C layout defines
